@@ -24,6 +24,8 @@ def run(ctx):
     from wcmatch import fnmatch as Fm, glob as Gm, pathlib as PL, wcmatch as WM, _wcparse as W
     rng, seed = seeded_rng('c10')
     ctx.proof('Properties/C10.v')
+    from props import globcommon as _gc
+    _gc.gsplit_corr(ctx, seeded_rng('gsplit')[0])
     F = corr.fl
     fsets = [0, F('EXTMATCH'), F('EXTMATCH', 'DOTMATCH', '_TRANSLATE'), F('PATHNAME', 'GLOBSTAR', 'EXTMATCH'),
              F('PATHNAME', 'GLOBSTAR', 'EXTMATCH', 'MATCHBASE', 'NODOTDIR'), F('PATHNAME', 'EXTMATCH', '_NOABSOLUTE', 'REALPATH'),
